@@ -53,12 +53,13 @@ const (
 	vpC36KeyNoHost10  = "C36/convertrequest-absolute-uri-host"
 	vpC36KeyEmptyHdr  = "C36/empty-header-value"
 	vpC36KeyCT304     = "C36/content-type-on-304"
-	vpC36SafetyWait   = 20 * time.Second
 	vpC36MaxBodyPrint = 120
 )
 
 // ---------------------------------------------------------------------------------------------
 // handler programs
+
+var vpC36SafetyWait = 20 * time.Second
 
 const (
 	vpC36OpWriteHeader = iota
